@@ -22,7 +22,7 @@ from ..vloop import World
 TITLE = "telegram queue"
 KINDS = ["out-GA1", "out-GA2", "out-internal", "in-GA1"]
 SEND = ["send-ok", "send-slow(0.5s)", "send-raises-CommunicationError", "send-raises-ConversionError", "send-raises-ValueError", "send-ok-but-no-confirmation"]
-STOP = ["join-then-stop", "stop-directly"]
+STOP = ["join-then-stop", "stop-directly", "queue-stop-with-backlog", "queue-stop-with-backlog-10ms-later"]
 GA1, GA2 = GroupAddress("1/1/1"), GroupAddress("1/1/2")
 
 
@@ -145,12 +145,26 @@ def make(mix_index: int, maxlen: int, rate_limit: int, restart: bool):
                     await xknx.start()
                 for t in queued:
                     xknx.telegrams.put_nowait(t)
-                mode = STOP[ch.choose("stop-mode", 2, [0, 0])]
+                mode = STOP[ch.choose("stop-mode", 4, [0, 0, 0, 0])]
                 result["mode"] = mode
                 if mode == "join-then-stop":
                     await xknx.join()
                     result["joined"] = loop.time()
-                await xknx.stop()
+                if mode.startswith("queue-stop-with-backlog"):
+                    if mode.endswith("later"):
+                        import asyncio
+
+                        await asyncio.sleep(0.01)   # the first telegram is out: with a rate limit the sender is inside its 1/r pause
+                    # (no follow-up telegram from the callback here: it would be queued behind the stop marker, which is not a
+                    # case the statement speaks about)
+                    followups["n"] = 1
+                    # TelegramQueue.stop() itself, while telegrams are still waiting (XKNX.stop() joins first): the backlog is
+                    # drained - in order, one at a time, rate limited - before the queue ends
+                    await xknx.telegram_queue.stop()
+                    result["queue-stopped"] = loop.time()
+                    xknx.started.clear()   # (XKNX.__del__ would otherwise try to run stop() on a real loop)
+                else:
+                    await xknx.stop()
                 result["stopped"] = loop.time()
                 # and the queue object stays usable: a later join returns at once
                 await xknx.join()
@@ -158,6 +172,7 @@ def make(mix_index: int, maxlen: int, rate_limit: int, restart: bool):
 
             u = w.spawn(user(), name="harness-user")
             loop.run_until(loop.time() + 120)
+            xknx.started.clear()   # whatever state the run ended in: XKNX.__del__ must not try to run stop() on a real loop
             ctxs = f"mix={mix} rate_limit={rate_limit} restart={restart} result={result} events={events}"
             if not u.done():
                 viols.append((f"join-or-stop-never-returns:{result.get('mode', 'start')}", f"unfinished={xknx.telegrams._unfinished_tasks}; {ctxs}"))  # noqa: SLF001
